@@ -383,7 +383,14 @@ def make_source(src, items):
     assert not fail
     return items
   if kind == 'seq':
-    return io.SequenceDataSource(FailingSeq(items, fail), ignore_error=bool(src.get('src_ignore')))
+    seq = FailingSeq(items, fail)
+    if src.get('nest'):
+      # the same sequence behind two levels of MergedSequences: slicing the inner level yields a LAZY iterator, so a
+      # failing read surfaces in the middle of the outer read-ahead batch (the model still sees `items` with `fail`)
+      from ml_metrics._src.utils import iter_utils
+      b1, b2 = src['nest']
+      seq = iter_utils.MergedSequences([iter_utils.MergedSequences([seq], max_batch_size=b1)], max_batch_size=b2)
+    return io.SequenceDataSource(seq, ignore_error=bool(src.get('src_ignore')))
   if kind == 'iter':
     return FailingIterable(items, fail)
   if kind == 'gen':
